@@ -59,7 +59,7 @@ def run(res, tier, seed, replay):
         tr = gen.amd64_triples(r, 300 if tier == "quick" else 20000)
         tr = [(f, j, k) for (f, j, k) in tr if abs(j - f) < 0x8000000]      # placements the allocator can produce (reach beyond is C01's claim)
         cases = [(f"x{i}", "amd64", "bool", f, j, i & 1) for i, (f, j, k) in enumerate(tr)] + \
-                [(f"a{i}", "arm64", "bool", f & ~3, (f & ~0xfff) + 0x1000 * r.randrange(-2000, 2000), i & 1) for i, (f, j, k) in enumerate(tr[:100]) if f > 0x1000000]
+                [(f"a{i}", "arm64", "bool", f & ~3, (f & ~0xfff) + 0x1000 * r.choice([x for x in range(-2000, 2000) if x not in (0, 1)]), i & 1) for i, (f, j, k) in enumerate(tr[:100]) if f > 0x1000000]   # a fresh mapping never overlaps the entry
         impl = simlib.run_sim(bins, "debug", "linux", cases)
         mon, monc = [], {}
         for c in cases:
